@@ -73,6 +73,9 @@ func (s *store) Watch(ctx context.Context, filter any) (Stream, error) {
 		if f, err = types.Cast[types.Map](types.Marshal(filter)); err != nil {
 			return nil, err
 		}
+		if err := validate(f); err != nil {
+			return nil, err
+		}
 	}
 
 	strm := newStream(f)
